@@ -1474,6 +1474,32 @@ open Nix.Store.CopyShape in
 example : ((Gen.handleSites.filter fun s => !s.owned).map fun s => (s.method, s.item)).eraseDups =
     [("metadata", "Section"), ("link", "Section")] := by decide
 
+open Nix.Store.CopyShape in
+/-- **the members a container hands out are its entries** (T: `Gen.handleSites`): the two `_inst_item` methods
+(`Container`, `LinkContainer`: every lookup by position, name, id and every iteration of `references`, a group's
+member lists, the source links and the owning containers goes through them) build the handle on the very entry
+the container was asked for - the method's parameter, not bound again before the handle is built - and every
+other site takes the HDF5 object from a member of the constructing entity's own HDF5 group or from `create_new`.
+So what `copy.references[i]`, `copy.positions`, `feature.data`, `group.data_arrays[i]`, `x.sources[i]`,
+`x.metadata` stand for is what the HDF5 link of the copy leads to, and by `path_stays_in_copy` that is an object
+of the copy, never an original. An `_inst_item` that looks the member up elsewhere (by name or id in the block's
+own container) and builds the handle on what it finds changes the table and this theorem no longer builds. -/
+theorem container_items_are_their_entries :
+    (∀ s ∈ Gen.handleSites, s.method = "_inst_item" → s.via = "entry") ∧
+    (∀ s ∈ Gen.handleSites, s.via = "entry" ∨ s.via = "create_new" ∨ s.via = "entry of properties" ∨
+      s.via ∈ ["link metadata", "link link", "link positions", "link extents", "link data"]) ∧
+    (Gen.handleSites.filter fun s => s.method == "_inst_item").map (fun s => s.cls) = ["Container", "LinkContainer"] := by
+  decide
+
+/-- the handle a link list of the copy hands out for the entry a path inside the copy leads to stands for an
+object of the copy (`path_stays_in_copy` read at the handle), whatever parent it is constructed with -/
+theorem link_handles_of_the_copy_are_new (hdst : FileOk dst)
+    (hc : copyGeneric src dst owner cls obj name false keepId = .ok (g', root))
+    {l l' : Loc} {p : Path} (hl : IsNew src dst owner cls obj l.key) (h : resolve g' l p = some l')
+    (parent : Option Nat) :
+    IsNew src dst owner cls obj (Nix.Store.CopyShape.Handle.mk l'.key parent).obj :=
+  path_stays_in_copy hdst hc hl h
+
 /-! ### non-vacuity of the source-shape theorems; what a narrower visitor would do -/
 
 /-- a section `s` (2, `id:0`) with one Property `p` (4: a *dataset*, `id:1`) -/
